@@ -661,39 +661,58 @@ Definition init_state (f : flag) (inputs : list value) : state :=
 (* vy_str(x) for the items of join *)
 Definition str_of (v : value) : option str := repr v.
 
-(* the text printed for `output` after the flag step; None = outside the domain *)
-Definition flag_text (f : flag) (originally_empty : bool) (output : value) (rest : list value) : option str :=
+(* `output` after the flag step: a value, or a text (flags j W build a string); None = outside
+   the domain.  The step runs whether or not anything is printed afterwards. *)
+Inductive outv := OVal (v : value) | OText (t : str).
+
+Definition flag_step (f : flag) (originally_empty : bool) (output : value) (rest : list value) : option outv :=
   match f with
   | Flj =>                                                  (* join(output, "\n") *)
       match output with
-      | VInt z => Some (join_with [10%N] (map (fun c => [c]) (Z_to_dec z)))
-      | VList l => option_map (join_with [10%N]) (mapM str_of l)
+      | VInt z => Some (OText (join_with [10%N] (map (fun c => [c]) (Z_to_dec z))))
+      | VList l => option_map (fun parts => OText (join_with [10%N] parts)) (mapM str_of l)
       | VFun _ => None
       end
-  | Fls =>                                                  (* vy_sum(output) *)
+  | Fls =>                                                  (* vy_sum(output): the digits of a number; a negative
+                                                               number sums to the string of its own digits *)
       match output with
-      | VInt z => if z <? 0 then Some (Z_to_dec z) else match sum_values (digit_vals z) with Some v => print_text v | None => None end
-      | VList l => match sum_values l with Some v => print_text v | None => None end
+      | VInt z => if z <? 0 then Some (OText (Z_to_dec z)) else option_map OVal (sum_values (digit_vals z))
+      | VList l => option_map OVal (sum_values l)
       | VFun _ => None
       end
   | FlW =>                                                  (* vy_str(stack) with the output put back *)
-      if originally_empty then repr (VList []) else repr (VList (rev (output :: rest)))
-  | _ => print_text output
+      option_map OText (if originally_empty then repr (VList []) else repr (VList (rev (output :: rest))))
+  | _ => Some (OVal output)
   end.
 
-Definition finish (f : flag) (s : state) : xres state :=
+Definition out_text (o : outv) : option str :=
+  match o with OVal v => print_text v | OText t => Some t end.
+
+(* the implicit output.  A function on top of the stack is printed by calling it on the main
+   stack (vy_print: lhs(ctx.stacks[-1], lhs, ctx=ctx)[-1]); lambdas only *)
+Definition finish (app : app_t) (f : flag) (s : state) : xres state :=
   let originally_empty := match stk s with [] => true | _ => false end in
   let (s1, output) := pop1 s in
   let s2 := match f with FlW => if originally_empty then s1 else push output s1 | _ => s1 end in
+  xdo o <- of_opt (flag_step f originally_empty output (stk s1));
   let wanted := match f with
                 | Flo => true
                 | FlO => false
                 | _ => negb (printed s1)
                 end in
   if wanted then
-    match flag_text f originally_empty output (stk s1) with
-    | Some t => XOk (emit s2 (t ++ [10%N]))
-    | None => XErr EStuck
+    match o with
+    | OVal (VFun c) =>
+        if c_named c then XErr EStuck
+        else
+          let (s3, popped) := popn (select_arity c None) s2 in
+          xdo (r, s4) <- app c popped s3;
+          vy_print r s4
+    | _ =>
+        match out_text o with
+        | Some t => XOk (emit s2 (t ++ [10%N]))
+        | None => XErr EStuck
+        end
     end
   else XOk s2.
 
